@@ -273,3 +273,60 @@ def covers(expr, parts):
         if lb[0].get(kk, 0) < v:
             return False, lb
     return lb[1] >= need[1], lb
+
+
+def upper_bound(n, depth=0):
+    """A linear upper bound of a non-negative integer expression, as
+    ({atom: Fraction}, Fraction) or None when none is known: floor(x / c) <= x / c,
+    x >> k <= x / 2^k; sums, products with non-negative constants, shifts."""
+    from fractions import Fraction as Fr
+    n = ir.strip(n)
+    if not isinstance(n, dict) or depth > 40:
+        return None
+    k = n.get("k")
+    if k == "paren":
+        return upper_bound(n["e"], depth + 1)
+    if k == "int":
+        return ({}, Fr(n.get("v", 0)))
+    if k in ("var", "mem", "gvar"):
+        return ({ir.render(n): Fr(1)}, Fr(0))
+
+    def add(a, b):
+        out = dict(a[0])
+        for kk, v in b[0].items():
+            out[kk] = out.get(kk, 0) + v
+        return ({kk: v for kk, v in out.items() if v != 0}, a[1] + b[1])
+
+    def scale(a, c):
+        return ({kk: v * c for kk, v in a[0].items()}, a[1] * c)
+    if k == "bin":
+        op = n["op"]
+        lc, rc = ir.strip(n["l"]), ir.strip(n["r"])
+        if op == "+":
+            a, b = upper_bound(lc, depth + 1), upper_bound(rc, depth + 1)
+            return add(a, b) if a is not None and b is not None else None
+        if op == "-" and isinstance(rc, dict) and rc.get("k") == "int":
+            a = upper_bound(lc, depth + 1)
+            return (a[0], a[1] - Fr(rc.get("v", 0))) if a is not None else None
+        if op == "*":
+            for c_, o in ((lc, rc), (rc, lc)):
+                if isinstance(c_, dict) and c_.get("k") == "int" and c_.get("v", -1) >= 0:
+                    a = upper_bound(o, depth + 1)
+                    return scale(a, Fr(c_["v"])) if a is not None else None
+            return None
+        if op == "/" and isinstance(rc, dict) and rc.get("k") == "int" and rc.get("v", 0) > 0:
+            a = upper_bound(lc, depth + 1)
+            return scale(a, Fr(1, rc["v"])) if a is not None else None
+        if op == ">>" and isinstance(rc, dict) and rc.get("k") == "int" and 0 <= rc.get("v", -1) < 63:
+            a = upper_bound(lc, depth + 1)
+            return scale(a, Fr(1, 1 << rc["v"])) if a is not None else None
+        if op == "<<" and isinstance(rc, dict) and rc.get("k") == "int" and 0 <= rc.get("v", -1) < 63:
+            a = upper_bound(lc, depth + 1)
+            return scale(a, Fr(1 << rc["v"])) if a is not None else None
+        if op == "&" :
+            # x & mask <= x
+            for c_, o in ((lc, rc), (rc, lc)):
+                if isinstance(c_, dict) and (c_.get("k") == "int" or (c_.get("k") == "un" and c_.get("op") == "~")):
+                    return upper_bound(o, depth + 1)
+            return None
+    return None
